@@ -674,6 +674,96 @@ def run_c3(prog, res, floor=2):
     return stat
 
 
+def run_c4(prog, res, floor=1):
+    """pushing bytes back into a port's buffer stores at buf[--offset]; inside a loop (a data-dependent number of
+    bytes) the store must be dominated by a comparison that mentions that offset - the loop's own condition or a
+    clamp of the count before it - or the offset runs below zero and the bytes land in front of the buffer, which
+    for string and bytevector ports is the object's own data"""
+    from cfg import dominators, elem_positions, enclosing_elem, block_reach
+    stat = res.stat("C01.c4", "loops that store at buf[--port.offset] are dominated by a comparison involving that offset", floor=floor)
+    for fn in prog.all_funcs():
+        if not fn.blocks:
+            continue
+        pos = dom = None
+        for i, nd in enumerate(fn.nodes):
+            if nd["k"] != "bin" or nd["o"] != "=":
+                continue
+            l = fn.strip(nd["c"][0])
+            if fn.nodes[l]["k"] != "idx":
+                continue
+            ix = fn.strip(fn.nodes[l]["c"][1])
+            xn = fn.nodes[ix]
+            if not (xn["k"] == "un" and xn["o"] in ("pre--", "post--")):
+                continue
+            t = fn.strip(xn["c"][0])
+            if fn.nodes[t]["k"] != "mem":
+                continue
+            root, path = fn.mempath(t)
+            if path != ["value", "port", "offset"]:
+                continue
+            pos = pos or elem_positions(fn)
+            at = enclosing_elem(fn, i, pos)
+            if at is None or at[0] not in block_reach(fn, at[0]):
+                continue            # not in a loop: one byte after one read (sexp_push_char)
+            # the innermost loop around the store; a loop that also reads from the port (offset++ on the same port)
+            # pushes back what it has just consumed
+            dom = dom or dominators(fn)
+            best = None
+            for t in fn.blocks.values():
+                for h in t.succs:
+                    if h is not None and h >= 0 and (h == t.id or h in dom.get(t.id, ())):
+                        body = {h}
+                        st = [t.id]
+                        while st:
+                            x = st.pop()
+                            if x in body:
+                                continue
+                            body.add(x)
+                            st.extend(fn.blocks[x].preds)
+                        if at[0] in body and (best is None or len(body) < len(best)):
+                            best = body
+            if best is None:
+                continue
+            reads = False
+            for bid in best:
+                for e in fn.blocks[bid].elems:
+                    en = fn.nodes[e]
+                    if en["k"] == "un" and en["o"] in ("post++", "pre++"):
+                        tt = fn.strip(en["c"][0])
+                        if fn.nodes[tt]["k"] == "mem":
+                            r3, p3 = fn.mempath(tt)
+                            if p3 == ["value", "port", "offset"] and fn.txt(r3) == fn.txt(root):
+                                reads = True
+                    if en["k"] == "call" and en.get("o") in ("sexp_buffered_read_char", "getc"):
+                        reads = True
+            if reads:
+                continue
+            stat.sites += 1
+            stat.obligations += 1
+            dom = dom or dominators(fn)
+            owner = fn.txt(root)
+            ok = False
+            for b in fn.blocks.values():
+                if b.cond is None or not (b.id == at[0] or b.id in dom.get(at[0], ())):
+                    continue
+                for m in fn.subtree(b.cond):
+                    mn = fn.nodes[m]
+                    if mn["k"] == "mem" and mn.get("o") == "offset":
+                        r2, p2 = fn.mempath(m)
+                        if p2 == ["value", "port", "offset"] and fn.txt(r2) == owner:
+                            ok = True
+            if ok:
+                stat.discharged += 1
+                stat.sample({"site": fn.where(i), "function": fn.name})
+            else:
+                res.add(Finding("C01", "C01.c4.unbounded-pushback", fn.name, "buf[--offset] of %s" % owner, fn.where(i),
+                                "%s stores at buf[--offset] of the port %s inside a loop and no comparison involving that offset "
+                                "dominates the store: pushing back more bytes than were consumed (a truncated UTF-8 sequence) writes "
+                                "in front of the buffer - for a string or bytevector port, over the object's header"
+                                % (fn.name, owner), unit=fn.unit.display))
+    return stat
+
+
 def run_c2(prog, res):
     """VM: when the stack cannot be grown (sexp_grow_stack returned 0) the interpreter leaves sexp_apply; it
     must not go on executing - entering the error handler, or any other instruction, pushes onto a stack that
